@@ -59,6 +59,7 @@ package roman
 //@ pure func romanValue(w bytes) int = 1000*hStart(w) + 100*gval(w[hStart(w):tStart(w)], 'C', 'D', 'M') + 10*gval(w[tStart(w):uStart(w)], 'X', 'L', 'C') + gval(w[uStart(w):len(w)], 'I', 'V', 'X')
 
 //@ func DefaultParser
+//@   ensures [C17.input] heapSame()
 //@   ensures [C10.accept] err == nil <==> (len(input) == 0 && r&RuleDisableEmptyAsZero == 0) || (len(input) > 0 && withinLimit(len(input)) && in(pattern, input))
 //@   ensures [C10.value] err == nil && len(input) > 0 && romanValue(input) <= 18446744073709551615 ==> int(r0) == romanValue(input)
 //@   ensures [C10.value] err == nil && len(input) == 0 ==> r0 == 0
@@ -68,10 +69,12 @@ package roman
 //@   loop 0 unroll 3
 
 //@ func Valid
+//@   ensures [C17.input] heapSame()
 //@   ensures [C10.valid] result == nil <==> (len(input) == 0 && r&RuleDisableEmptyAsZero == 0) || (len(input) > 0 && withinLimit(len(input)) && in(pattern, input))
 //@   ensures [C10.zero] result != nil ==> errAs(result, *NumberFormatError)
 
 //@ func (*Number).UnmarshalText
+//@   ensures [C17.input] heapSame()
 //@   ensures [C17.recv] err != nil ==> *n == old(*n)
 //@   ensures [C10.accept] err == nil <==> len(data) == 0 || (withinLimit(len(data)) && in(pattern, data))
 //@   ensures [C10.value] err == nil && len(data) > 0 && romanValue(data) <= 18446744073709551615 ==> int(*n) == romanValue(data)
